@@ -322,6 +322,33 @@ fn plans(prop: &str, tier: &str) -> Vec<Plan> {
                 }
             }
             out.push(Plan { name: "c12-late-stack", cfgs: late, depth: if q { 4 } else { 5 } });
+            // lag inside chains: manual polling, capacity 1, so that a Reset
+            // travels up the chain and is followed by index-addressed updates
+            let lagmenu = [
+                StageKind::Head(Lim::Static(2)),
+                StageKind::Tail(Lim::Static(2)),
+                StageKind::Skip(Lim::Static(1)),
+                StageKind::Filter,
+                StageKind::FilterMap,
+                StageKind::Sort,
+                StageKind::SortBy,
+                StageKind::Head(Lim::DynInit(2, LimSrc::Queue)),
+            ];
+            let mut lag = Vec::new();
+            for a in &lagmenu {
+                for b in &lagmenu {
+                    for batched in fl {
+                        for init in [vec![2u8, 1, 0], vec![1u8, 0]] {
+                            let mut c = mk(vec![*a, *b], batched, &init, Alphabet::Reduced, 1);
+                            c.policy = Policy::Manual;
+                            c.txn = false;
+                            c.max_limit = 2;
+                            lag.push(c);
+                        }
+                    }
+                }
+            }
+            out.push(Plan { name: "c12-lag-manual", cfgs: lag, depth: if q { 4 } else { 5 } });
             // length 3
             let mut len3 = Vec::new();
             let small: Vec<StageKind> = vec![
@@ -527,7 +554,7 @@ fn run_all<E: El>(cli: &ev::Cli) -> i32 {
     let require: Vec<&'static str> = match cli.prop.as_str() {
         "C09" => vec!["adapter_emitted_diff", "limit_items_consumed", "reset_through_adapter", "several_outputs_for_one_input", "adapter_stream_ended_with_source"],
         "C10" | "C11" => vec!["adapter_emitted_diff", "reset_through_adapter", "adapter_stream_ended_with_source"],
-        "C12" => vec!["initial_values_checked_at_every_stage", "adapter_emitted_diff", "direct_join_checked", "limit_items_consumed", "stacked_on_a_polled_adapter"],
+        "C12" => vec!["initial_values_checked_at_every_stage", "adapter_emitted_diff", "direct_join_checked", "limit_items_consumed", "stacked_on_a_polled_adapter", "reset_through_adapter"],
         "C13" => vec!["twin_streams_compared", "multi_diff_source_batch", "adapter_emitted_diff", "reset_through_adapter"],
         "C14" => vec!["pending_then_woken_then_ready", "limit_items_consumed", "source_dropped_while_pending"],
         "C15" => vec!["limit_checked_after_single_diff", "view_full_again_after_making_room"],
